@@ -2,6 +2,7 @@ SPECIFICATION Spec
 CONSTANTS Routers <- AllRouters
           SyncRouters <- AllRouters
           Gen = {"g1", "g2", "ghi"}
+          Deg = {"gdeg"}
           Bad = {"bad"}
           Shape <- ShapeGuard
           D = 4
